@@ -25,7 +25,7 @@ EXPLANATION = (
     'assembly gives every positional parameter exactly one outcome; (g) '
     'Functor._on_change processes every update of a batch.  Agreement with '
     'the interpreter\'s binding rules is differential and not decided.')
-FLOORS = {'C18.a': 4, 'C18.b': 1, 'C18.c': 1, 'C18.d': 2, 'C18.e': 1, 'C18.f': 1, 'C18.g': 1, 'C18.h': 1, 'C18.i': 2, 'C18.j': 2, 'C18.k': 1, 'C18.l': 3}
+FLOORS = {'C18.a': 4, 'C18.b': 1, 'C18.c': 1, 'C18.d': 2, 'C18.e': 1, 'C18.f': 1, 'C18.g': 1, 'C18.h': 1, 'C18.i': 2, 'C18.j': 2, 'C18.k': 1, 'C18.l': 3, 'C18.m': 2}
 FILES = ['pyglove/core/symbolic/functor.py', 'pyglove/core/symbolic/class_wrapper.py',
          'pyglove/core/symbolic/symbolize.py', 'pyglove/core/typing/callable_signature.py',
          'pyglove/core/coding/function_generation.py', 'pyglove/core/symbolic/object.py']
@@ -503,6 +503,55 @@ def rule_k(ctx):
          'the deletion of a bound argument precedes the bookkeeping of the argument sets', f.loc, '; '.join(problems))
 
 
+def rule_m(ctx):
+  """(1) Deserialization binds every key it reads, so a functor writes only the
+  arguments that were specified - unspecified parameters holding their defaults
+  are left out; otherwise a round trip turns defaults into bound arguments
+  (which then cannot be given at call time without override_args).
+  (2) At call time an argument supplied positionally and again by keyword is a
+  TypeError, as in Python - the keyword must not silently win."""
+  idx = ctx.index
+  c = idx.cls('pyglove.core.symbolic.functor.Functor')
+  ser = [m for n, m in c.methods.items() if n in ('sym_jsonify', 'to_json')]
+  ok = False
+  for m in ser:
+    reads = any(isinstance(n, ast.Attribute) and n.attr in ('_specified_args', 'specified_args') for n in ast.walk(m.node))
+    drops = any(isinstance(cl, ast.Call) and isinstance(cl.func, ast.Attribute) and cl.func.attr in ('pop', '__delitem__')
+                for cl in ast.walk(m.node)) or any(isinstance(n, (ast.Delete, ast.DictComp)) for n in ast.walk(m.node))
+    ok = ok or (reads and drops)
+  ctx.ob('C18.m', c.fq + '#serialized-arguments', ok,
+         'a functor serializes exactly its specified arguments (from_json binds every key it reads)',
+         c.loc, 'Functor does not restrict its JSON form to _specified_args: after a round trip default-valued '
+         'parameters count as specified, and f2(b=3) raises where f(b=3) worked')
+  f = idx.func(FN + '_parse_call_time_overrides')
+  g = C.cfg_of(f.node)
+  va = f.node.args.vararg.arg if f.node.args.vararg else None
+  kw = f.node.args.kwarg.arg if f.node.args.kwarg else None
+  problems = []
+  loops = [k for k in g.nodes if k.kind == 'iter' and isinstance(k.ast.iter, ast.Call)
+           and A.call_name(k.ast.iter) == f'{kw}.items']
+  if not va or not kw or not loops:
+    problems.append('keyword loop over **kwargs not found')
+  else:
+    kv = A.assigned_names(loops[0].ast.target)
+    # collections derived from the positional arguments of THIS call
+    pos_sets = {nm for st in ast.walk(f.node) if isinstance(st, ast.Assign)
+                and any(isinstance(x, ast.Name) and x.id == va for x in ast.walk(st.value))
+                and any(isinstance(x, ast.Attribute) and x.attr in ('args', 'name') for x in ast.walk(st.value))
+                for nm in A.assigned_names(st.targets[0])}
+    tests = [t for t in g.nodes if t.kind == 'test' and isinstance(t.ast, ast.Compare) and len(t.ast.ops) == 1
+             and isinstance(t.ast.ops[0], ast.In) and isinstance(t.ast.left, ast.Name) and t.ast.left.id in kv
+             and isinstance(t.ast.comparators[0], ast.Name) and t.ast.comparators[0].id in pos_sets
+             and any(x is t.ast for x in ast.walk(loops[0].ast))]
+    if not tests:
+      problems.append('no test `<keyword> in <names supplied positionally in this call>` in the keyword loop')
+    elif not all(g.always_raises_from(t, 'true') for t in tests):
+      problems.append('a keyword that repeats a positional argument of the same call does not always raise')
+  ctx.ob('C18.m', f.fq + '#multiple-values', not problems,
+         'an argument given positionally and again by keyword in one call raises TypeError (as Python does)',
+         f.loc, '; '.join(problems))
+
+
 def run(ctx):
   ctx.consult(*FILES)
   rule_a(ctx)
@@ -516,5 +565,6 @@ def run(ctx):
   rule_i(ctx)
   rule_j(ctx)
   rule_k(ctx)
+  rule_m(ctx)
   S.typecheck_flag_obligations(ctx, 'C18.l', ['pyglove/core/symbolic/functor.py', 'pyglove/core/symbolic/class_wrapper.py', 'pyglove/core/symbolic/object.py'], floor=3)
   ctx.assume('agreement with the interpreter\'s argument binding is differential by nature: not decided')
